@@ -664,3 +664,80 @@ def enclosing_stmt_map(funcnode):
     for s in funcnode.body:
         rec_stmt(s)
     return out
+
+
+def assertion_only(st):
+    """the statement only asserts: an `assert`, or a loop / if whose body is
+    made of such statements, calling nothing but isinstance/type/len (so it
+    neither changes state nor answers a request)"""
+    if isinstance(st, ast.Assert):
+        calls = [c for c in ast.walk(st) if isinstance(c, ast.Call)]
+    elif isinstance(st, (ast.For, ast.If)):
+        if not all(assertion_only(x) for x in st.body + st.orelse):
+            return False
+        hdr = st.iter if isinstance(st, ast.For) else st.test
+        calls = [c for c in ast.walk(hdr) if isinstance(c, ast.Call)]
+    elif isinstance(st, ast.Pass):
+        return True
+    else:
+        return False
+    return all(isinstance(c.func, ast.Name) and
+               c.func.id in ('isinstance', 'type', 'len') for c in calls)
+
+
+def canonical_handlers(try_node):
+    """the handlers of a try statement in a form that does not depend on how
+    the case distinction between exception types is written:
+
+      * the types of a tuple are sorted by name;
+      * `except T as e: A; if isinstance(e, X): S; B` (no else) is split into
+        `except X as e: A; S; B` followed by `except T as e: A; B` - the same
+        exceptions are caught and the same statements run for each.
+
+    Returns new ExceptHandler nodes (the tree is not modified)."""
+    import copy
+
+    def type_names(t):
+        if t is None:
+            return None
+        elts = t.elts if isinstance(t, ast.Tuple) else [t]
+        return sorted(ast.unparse(e) for e in elts)
+
+    def mk(names, like, body):
+        if names is None:
+            ty = None
+        elif len(names) == 1:
+            ty = ast.parse(names[0], mode='eval').body
+        else:
+            ty = ast.Tuple(elts=[ast.parse(n, mode='eval').body
+                                 for n in names], ctx=ast.Load())
+        h = ast.ExceptHandler(type=ty, name=like.name, body=body)
+        ast.copy_location(h, like)
+        ast.fix_missing_locations(h)
+        return h
+    out = []
+    for h in try_node.handlers:
+        split = None
+        if h.name:
+            for i, st in enumerate(h.body):
+                if isinstance(st, ast.If) and not st.orelse and \
+                        isinstance(st.test, ast.Call) and \
+                        isinstance(st.test.func, ast.Name) and \
+                        st.test.func.id == 'isinstance' and \
+                        len(st.test.args) == 2 and \
+                        isinstance(st.test.args[0], ast.Name) and \
+                        st.test.args[0].id == h.name and \
+                        not any(isinstance(x, ast.Name) and x.id == h.name
+                                and isinstance(x.ctx, ast.Store)
+                                for s0 in h.body[:i] for x in ast.walk(s0)):
+                    split = (i, st)
+                    break
+        if split is None:
+            out.append(mk(type_names(h.type), h, copy.deepcopy(h.body)))
+            continue
+        i, st = split
+        out.append(mk(type_names(st.test.args[1]), h,
+                      copy.deepcopy(h.body[:i] + st.body + h.body[i + 1:])))
+        out.append(mk(type_names(h.type), h,
+                      copy.deepcopy(h.body[:i] + h.body[i + 1:])))
+    return out
